@@ -1219,6 +1219,10 @@ handle_null_request(int tun_fd, int dns_fd, struct dnsfd *dns_fds, struct query 
 			return; /* illegal id */
 		}
 
+		/* A client that never saw our raw login reply carries on in
+		   DNS mode; answer it there */
+		user_set_conn_type(userid, CONN_DNS_NULL);
+
 #ifdef DNSCACHE_LEN
 		/* Check if cached */
 		if (answer_from_dnscache(dns_fd, userid, q))
@@ -1346,6 +1350,10 @@ handle_null_request(int tun_fd, int dns_fd, struct dnsfd *dns_fds, struct query 
 			write_dns(dns_fd, q, "BADIP", 5, 'T');
 			return; /* illegal id */
 		}
+
+		/* See ping above: DNS-mode data means the client is not in
+		   raw mode */
+		user_set_conn_type(userid, CONN_DNS_NULL);
 
 #ifdef DNSCACHE_LEN
 		/* Check if cached */
